@@ -108,6 +108,8 @@ structure DState where
   nRouted : Nat := 0
   maxItems : Nat := 0
   maxDepth : Nat := 0
+  nRecords : Nat := 0
+  nTolChecked : Nat := 0
   caseBuilds : Nat := 0
   caseSplits : Nat := 0
   caseQueries : Nat := 0
@@ -634,11 +636,122 @@ def handleOp (d : DState) (p : Pending) (res : List String) : DState := Id.run d
       return { d with resync := true, preBuild := none }
   | _ => return d.diff "unknown op" "" (" ".intercalate p.toks)
 
+
+/-! ### kernel, quantisation and key records -/
+
+/-- a finite binary32 as an exact integer multiple of 2^-149·2^… : (signed mantissa, exponent) -/
+def exactOf (x : Nat) : Option (Int × Int) :=
+  match SF.unpack SF.f32 x with
+  | .fin neg m e => some (if neg then -(m : Int) else (m : Int), e)
+  | _ => none
+
+/-- Σ aᵢ·bᵢ (or Σ (aᵢ-bᵢ)²) exactly, as numerator over 2^300, with Σ |terms| -/
+def exactSum (terms : List ((Int × Int) × (Int × Int))) (euclid : Bool) : Int × Int :=
+  -- scale everything to the common exponent -300 (binary32 exponents are ≥ -149, products ≥ -298)
+  let sc (v : Int × Int) : Int := v.1 * (2 : Int) ^ ((v.2 + 150).toNat)      -- value · 2^150
+  terms.foldl (fun (acc : Int × Int) (p : (Int × Int) × (Int × Int)) =>
+    let a := sc p.1
+    let b := sc p.2
+    let t := if euclid then (a - b) * (a - b) else a * b                       -- value · 2^300
+    (acc.1 + t, acc.2 + t.natAbs)) (0, 0)
+
+/-- is the implementation's result within the rounding error bound of the exact sum? -/
+def withinTolerance (n : Nat) (exact absSum : Int) (impl : Nat) : Bool :=
+  match exactOf impl with
+  | none => true     -- overflow / NaN: not judged here
+  | some v =>
+    let got := v.1 * (2 : Int) ^ ((v.2 + 300).toNat)                           -- value · 2^300
+    -- |got - exact| ≤ (n + 2)·2^-23·Σ|terms| + (n + 2)·2^-149  (all scaled by 2^300)
+    let tol := (absSum * (n + 2)) / (2 : Int) ^ 23 + (n + 2) * (2 : Int) ^ 151
+    (got - exact).natAbs ≤ tol.natAbs
+
+def kernelModel (h : Host) (name : String) (a b : List Nat) : Option Nat :=
+  match name with
+  | "dot" => some (dotProduct h a b)
+  | "euclid" => some (euclideanDistance h a b)
+  | "dot_scalar" => some (Kernel.dotScalar f32Arith a b)
+  | "euclid_scalar" => some (Kernel.euclidScalar f32Arith a b)
+  | "dot_sse" => some (Kernel.dotSse f32Arith a b)
+  | "euclid_sse" => some (Kernel.euclidSse f32Arith a b)
+  | "dot_avx" => some (Kernel.dotAvx f32Arith a b)
+  | "euclid_avx" => some (Kernel.euclidAvx f32Arith a b)
+  | _ => none
+
+def handleKern (d : DState) (toks res : List String) : DState := Id.run do
+  let mut d := { d with nRecords := d.nRecords + 1, step := d.step + 1 }
+  match toks, res with
+  | ["kern", name, va, vb], [r] =>
+    let some a := parseVec? va | return d.diff "bad vec" "" va
+    let some b := parseVec? vb | return d.diff "bad vec" "" vb
+    let some impl := hexNat? r | return d.diff "bad result" "" r
+    match kernelModel d.host name a b with
+    | none => return d.diff "unknown kernel" "" name
+    | some m =>
+      if canonDist m != canonDist impl then
+        d := d.diff s!"kernel {name} len={a.length}" (hex8 m) (hex8 impl)
+      -- accuracy against the exact sum (finite operands only)
+      match a.mapM exactOf, b.mapM exactOf with
+      | some ea, some eb =>
+        let (exact, absSum) := exactSum (List.zip ea eb) (name.startsWith "euclid")
+        d := { d with nTolChecked := d.nTolChecked + 1 }
+        if !(withinTolerance a.length exact absSum impl) then
+          d := d.prop "C11" s!"kernel {name} len={a.length}: result {hex8 impl} is not within the summation error bound of the exact value (a={va} b={vb})"
+      | _, _ => pure ()
+      return d
+  | ["dist", ms, _dims, va, vb], [rb, rn] =>
+    let some m := parseMetric? ms | return d.diff "bad metric" "" ms
+    let some a := parseVec? va | return d.diff "bad vec" "" va
+    let some b := parseVec? vb | return d.diff "bad vec" "" vb
+    let some ib := hexNat? rb | return d.diff "bad result" "" rb
+    let some inn := hexNat? rn | return d.diff "bad result" "" rn
+    let pa := m.fromSlice a
+    let pb := m.fromSlice b
+    let built := m.builtDistance d.host (m.newHeader d.host pa) pa (m.newHeader d.host pb) pb
+    let norm := m.normalizedDistance built a.length
+    if canonDist built != canonDist ib || canonDist norm != canonDist inn then
+      d := d.diff s!"distance {ms} len={a.length}" s!"{hex8 built} {hex8 norm}" s!"{rb} {rn}"
+    -- C11/C12: symmetric in its arguments (model side is proved; this is the implementation's value)
+    return d
+  | ["bq", v], [packed, it, tv] =>
+    let some xs := parseVec? v | return d.diff "bad vec" "" v
+    let some pk := ofHex packed | return d.diff "bad bytes" "" packed
+    let some iv := parseVec? it | return d.diff "bad vec" "" it
+    let some tvv := parseVec? tv | return d.diff "bad vec" "" tv
+    let words := BQ.pack xs
+    if words.flatMap (le 8) != pk then d := d.diff s!"quantised bytes dims={xs.length}" (toHex (words.flatMap (le 8))) packed
+    if BQ.unpack words != iv then d := d.diff s!"quantised iter dims={xs.length}" "" ""
+    if BQ.unpack words != tvv then d := d.diff s!"quantised to_vec dims={xs.length}" "" ""
+    let signs := xs.map fun x => if x ≥ 2^31 then F32.negOne else F32.one
+    if iv.take xs.length != signs then d := d.prop "C12" s!"iter() does not give back the sign pattern of {v}"
+    if tvv.take xs.length != signs then d := d.prop "C12" s!"to_vec() does not give back the sign pattern of {v}"
+    if (iv.drop xs.length).any (· != F32.negOne) then d := d.prop "C12" s!"padding is not all -1 for {v}"
+    return d
+  | _, _ => return d.diff "unparsable record" "" (" ".intercalate toks)
+
+def handleKeySeen (d : DState) (toks : List String) : DState :=
+  let d := { d with nRecords := d.nRecords + 1, step := d.step + 1 }
+  match toks with
+  | ["keyseen", hex, i, what, id] =>
+    match ofHex hex, parseNat? i, parseNat? id with
+    | some bytes, some index, some item =>
+      let mode? : Option (Nat × Nat) := match what with
+        | "item" => some (modeItem, item) | "updated" => some (modeUpdated, item) | "tree" => some (modeTree, item)
+        | "metadata" => some (metadataKeyMode, metadataKeyItem) | "version" => some (versionKeyMode, versionKeyItem)
+        | _ => none
+      match mode? with
+      | some (mode, it) =>
+        let k : Key := ⟨index, mode, it⟩
+        let d := if encodeKey k == bytes then d else d.prop "C16" s!"key of {what} {item} in index {index} is {hex}, the reference layout gives {toHex (encodeKey k)}"
+        if decodeKey bytes == some k then d else d.prop "C16" s!"key {hex} does not decode to ({index}, {what}, {item})"
+      | none => d.diff "unknown key kind" "" what
+    | _, _, _ => d.diff "unparsable keyseen" "" (" ".intercalate toks)
+  | _ => d.diff "unparsable keyseen" "" (" ".intercalate toks)
+
 /-! ### the line loop -/
 
 def opKeywords : List String :=
   ["add", "append", "del", "clear", "prepare", "build", "needbuild", "open", "get", "contains", "isempty", "iter",
-   "rget", "rcontains", "risempty", "riter", "ritemids", "nns"]
+   "rget", "rcontains", "risempty", "riter", "ritemids", "nns", "kern", "dist", "bq"]
 
 def step (d : DState) (line : String) : DState :=
   let line := line.trimAscii.toString
@@ -678,9 +791,12 @@ def step (d : DState) (line : String) : DState :=
     match d.pending with
     | some p => { d with pending := some { p with evs := p.evs.push toks } }
     | none => d.diff "event without an operation" "" line
+  | "keyseen" :: _ => handleKeySeen d toks
   | "res" :: res =>
     match d.pending with
-    | some p => handleOp { d with pending := none } p res
+    | some p =>
+      if ["kern", "dist", "bq"].contains (p.toks.headD "") then handleKern { d with pending := none } p.toks res
+      else handleOp { d with pending := none } p res
     | none => d.diff "result without an operation" "" line
   | kw :: _ =>
     if opKeywords.contains kw then { d with pending := some { toks } }
@@ -688,7 +804,7 @@ def step (d : DState) (line : String) : DState :=
   | [] => d
 
 def statsLine (d : DState) : String :=
-  s!"STAT ops={d.nOps} builds={d.nBuilds} builds_replayed={d.nBuildsReplayed} builds_loose={d.nBuildsLoose} cancelled_or_failed={d.nCancelled} dumps={d.nDumps} queries={d.nQueries} exact_checked={d.nExact} monotone_pairs={d.nMonotone} self_lookups={d.nSelfLookups} split_nodes_seen={d.nSplits} random_splits_seen={d.nRandomSplits} item_children_seen={d.nItemChildren} routed_pairs={d.nRouted} max_items={d.maxItems} max_depth={d.maxDepth} failures={d.failures}"
+  s!"STAT records={d.nRecords} tolerance_checked={d.nTolChecked} ops={d.nOps} builds={d.nBuilds} builds_replayed={d.nBuildsReplayed} builds_loose={d.nBuildsLoose} cancelled_or_failed={d.nCancelled} dumps={d.nDumps} queries={d.nQueries} exact_checked={d.nExact} monotone_pairs={d.nMonotone} self_lookups={d.nSelfLookups} split_nodes_seen={d.nSplits} random_splits_seen={d.nRandomSplits} item_children_seen={d.nItemChildren} routed_pairs={d.nRouted} max_items={d.maxItems} max_depth={d.maxDepth} failures={d.failures}"
 
 end Driver
 end Arroy
